@@ -60,207 +60,212 @@ def run(index, rep, tier):
     rep.rule("R13.5", "every DataReader service (read_dataset/read_tree_lists/read_char_matrices) delegates to the same _read with the stream unchanged; registry rows pair reader and yielder of the same family")
 
     # ---- R13.1
-    for cq, entry, helpers, sink in ((BM + ".Deserializable", "_get_from", ["get_from_stream", "get_from_path", "get_from_string", "get_from_url"], "_parse_and_create_from_stream"),
-                                     (BM + ".MultiReadable", "_read_from", ["read_from_stream", "read_from_path", "read_from_string", "read_from_url"], "_parse_and_add_from_stream")):
-        e = index.function(cq + "." + entry)
-        called = {call_name(c) for c in calls_in(e.node)}
-        for h in helpers:
-            rep.check(h in called, "R13.1", e.qualname, "dispatch to " + h, fn_where(e), "%s dispatches to %s" % (entry, h), "%s no longer dispatches to %s" % (e.qualname, h))
-        unpack = [n for n in ast.walk(e.node) if isinstance(n, ast.Assign) and isinstance(n.targets[0], ast.Tuple) and len(n.targets[0].elts) == 3
-                  and isinstance(n.value, ast.Call) and "_extract_serialization_target_keyword" in norm(n.value.func)]
-        srcv, schv = (norm(unpack[0].targets[0].elts[1]), norm(unpack[0].targets[0].elts[2])) if unpack else ("src", "schema")
-        for c in calls_in(e.node):
-            if call_name(c) in helpers:
-                kw = {k.arg: norm(k.value) for k in c.keywords if k.arg}
-                ok = kw.get("src") == srcv and kw.get("schema") == schv and has_star_kwargs(c)
-                rep.check(ok, "R13.1", e.qualname, "%s(%s)" % (call_name(c), kw), fn_where(e, c), "%s forwards src, schema and **kwargs unchanged to %s" % (entry, call_name(c)),
-                          "%s calls %s with %s: the source, schema or keyword options are not forwarded unchanged on this route" % (e.qualname, call_name(c), kw))
-        for h in helpers:
-            f = index.function(cq + "." + h)
-            sinks = [c for c in calls_in(f.node) if call_name(c) == sink]
-            ok = len(sinks) == 1
-            rep.check(ok, "R13.1", f.qualname, "single sink " + sink, fn_where(f), "%s has exactly one data-bearing call: %s" % (h, sink), "%s does not end in exactly one call of %s" % (f.qualname, sink))
-            if not ok:
-                continue
-            c = sinks[0]
-            kw = {k.arg: k.value for k in c.keywords if k.arg}
-            okk = norm(kw.get("schema")) == "schema" and has_star_kwargs(c) if kw.get("schema") is not None else False
-            rep.check(okk, "R13.1", f.qualname, "schema/**kwargs forwarded", fn_where(f, c), "%s forwards schema=schema, **kwargs" % h, "%s does not forward schema and **kwargs unchanged to %s" % (f.qualname, sink))
-            st = kw.get("stream")
-            src_param = [p for p in f.params if p not in ("self", "cls")][0]
-            okst = False
-            how = norm(st) if st is not None else None
-            if st is not None:
-                if norm(st) == src_param:
-                    okst = True
-                elif isinstance(st, ast.Name):
-                    defs = [d for d in ast.walk(f.node) if (isinstance(d, ast.Assign) and norm(d.targets[0]) == st.id) or (isinstance(d, ast.withitem) and d.optional_vars is not None and norm(d.optional_vars) == st.id)]
-                    for d in defs:
-                        v = d.value if isinstance(d, ast.Assign) else d.context_expr
-                        how = norm(v)
-                        if isinstance(v, ast.Call) and call_name(v) == "StringIO" and len(v.args) == 1:
-                            a = v.args[0]
-                            if norm(a) == src_param:
+    with rep.section("R13.1"):
+        for cq, entry, helpers, sink in ((BM + ".Deserializable", "_get_from", ["get_from_stream", "get_from_path", "get_from_string", "get_from_url"], "_parse_and_create_from_stream"),
+                                         (BM + ".MultiReadable", "_read_from", ["read_from_stream", "read_from_path", "read_from_string", "read_from_url"], "_parse_and_add_from_stream")):
+            e = index.function(cq + "." + entry)
+            called = {call_name(c) for c in calls_in(e.node)}
+            for h in helpers:
+                rep.check(h in called, "R13.1", e.qualname, "dispatch to " + h, fn_where(e), "%s dispatches to %s" % (entry, h), "%s no longer dispatches to %s" % (e.qualname, h))
+            unpack = [n for n in ast.walk(e.node) if isinstance(n, ast.Assign) and isinstance(n.targets[0], ast.Tuple) and len(n.targets[0].elts) == 3
+                      and isinstance(n.value, ast.Call) and "_extract_serialization_target_keyword" in norm(n.value.func)]
+            srcv, schv = (norm(unpack[0].targets[0].elts[1]), norm(unpack[0].targets[0].elts[2])) if unpack else ("src", "schema")
+            for c in calls_in(e.node):
+                if call_name(c) in helpers:
+                    kw = {k.arg: norm(k.value) for k in c.keywords if k.arg}
+                    ok = kw.get("src") == srcv and kw.get("schema") == schv and has_star_kwargs(c)
+                    rep.check(ok, "R13.1", e.qualname, "%s(%s)" % (call_name(c), kw), fn_where(e, c), "%s forwards src, schema and **kwargs unchanged to %s" % (entry, call_name(c)),
+                              "%s calls %s with %s: the source, schema or keyword options are not forwarded unchanged on this route" % (e.qualname, call_name(c), kw))
+            for h in helpers:
+                f = index.function(cq + "." + h)
+                sinks = [c for c in calls_in(f.node) if call_name(c) == sink]
+                ok = len(sinks) == 1
+                rep.check(ok, "R13.1", f.qualname, "single sink " + sink, fn_where(f), "%s has exactly one data-bearing call: %s" % (h, sink), "%s does not end in exactly one call of %s" % (f.qualname, sink))
+                if not ok:
+                    continue
+                c = sinks[0]
+                kw = {k.arg: k.value for k in c.keywords if k.arg}
+                okk = norm(kw.get("schema")) == "schema" and has_star_kwargs(c) if kw.get("schema") is not None else False
+                rep.check(okk, "R13.1", f.qualname, "schema/**kwargs forwarded", fn_where(f, c), "%s forwards schema=schema, **kwargs" % h, "%s does not forward schema and **kwargs unchanged to %s" % (f.qualname, sink))
+                st = kw.get("stream")
+                src_param = [p for p in f.params if p not in ("self", "cls")][0]
+                okst = False
+                how = norm(st) if st is not None else None
+                if st is not None:
+                    if norm(st) == src_param:
+                        okst = True
+                    elif isinstance(st, ast.Name):
+                        defs = [d for d in ast.walk(f.node) if (isinstance(d, ast.Assign) and norm(d.targets[0]) == st.id) or (isinstance(d, ast.withitem) and d.optional_vars is not None and norm(d.optional_vars) == st.id)]
+                        for d in defs:
+                            v = d.value if isinstance(d, ast.Assign) else d.context_expr
+                            how = norm(v)
+                            if isinstance(v, ast.Call) and call_name(v) == "StringIO" and len(v.args) == 1:
+                                a = v.args[0]
+                                if norm(a) == src_param:
+                                    okst = True
+                                elif isinstance(a, ast.Name):
+                                    # text fetched from the url, unchanged
+                                    d2 = [x for x in ast.walk(f.node) if isinstance(x, ast.Assign) and norm(x.targets[0]) == a.id]
+                                    okst = bool(d2) and isinstance(d2[0].value, ast.Call) and "read_url" in norm(d2[0].value.func)
+                            elif isinstance(v, ast.Call) and call_name(v) == "open" and v.args and norm(v.args[0]) == src_param:
                                 okst = True
-                            elif isinstance(a, ast.Name):
-                                # text fetched from the url, unchanged
-                                d2 = [x for x in ast.walk(f.node) if isinstance(x, ast.Assign) and norm(x.targets[0]) == a.id]
-                                okst = bool(d2) and isinstance(d2[0].value, ast.Call) and "read_url" in norm(d2[0].value.func)
-                        elif isinstance(v, ast.Call) and call_name(v) == "open" and v.args and norm(v.args[0]) == src_param:
-                            okst = True
-            rep.check(okst, "R13.1", f.qualname, "stream built as %s" % how, fn_where(f, c), "%s hands the parser a stream over the untransformed source (%s)" % (h, how),
-                      "%s builds the parser's stream as `%s`: the source text is transformed on this route, so reading from a string, a stream and a path no longer give identical results" % (f.qualname, how))
+                rep.check(okst, "R13.1", f.qualname, "stream built as %s" % how, fn_where(f, c), "%s hands the parser a stream over the untransformed source (%s)" % (h, how),
+                          "%s builds the parser's stream as `%s`: the source text is transformed on this route, so reading from a string, a stream and a path no longer give identical results" % (f.qualname, how))
 
     # ---- R13.2
-    builders = []
-    for m in ("newickreader", "newickyielder", "nexusreader", "nexusyielder"):
-        for f in index.functions_in_module(DIO + m):
-            for c in calls_in(f.node, nested=True):
-                if call_name(c) in ("node_factory", "add_child", "new_child", "insert_child") and isinstance(c.func, ast.Attribute):
-                    builders.append((f, c))
-    rep.floor("R13.2", "node-building calls in the Newick/NEXUS readers", 6, len(builders))
-    for f, c in builders:
-        ok = f.qualname == DIO + "newickreader.NewickReader._parse_tree_node_description"
-        rep.check(ok, "R13.2", f.qualname, "builds nodes: " + norm(c)[:60], fn_where(f, c), "nodes are built from tokens in _parse_tree_node_description only",
-                  "%s builds tree nodes itself (`%s`): a second tree-statement parser, so routes through it can disagree with the others" % (f.qualname, norm(c)[:60]))
-    routes = [
-        (DIO + "newickreader.NewickReader.tree_iter", "self"),
-        (DIO + "newickyielder.NewickTreeDataYielder._yield_items_from_stream", "self.newick_reader"),
-        (DIO + "nexusreader.NexusReader._build_tree_from_newick_tree_string", "self.newick_reader"),
-    ]
-    for q, recv in routes:
-        f = index.function(q)
-        cs = [c for c in calls_in(f.node) if call_name(c) == "_parse_tree_statement"]
-        ok = len(cs) == 1 and norm(cs[0].func.value) == recv
-        rep.check(ok, "R13.2", f.qualname, "delegates to %s._parse_tree_statement" % recv, fn_where(f), "%s parses each tree statement with %s._parse_tree_statement" % (f.name, recv),
-                  "%s no longer parses tree statements with the shared NewickReader._parse_tree_statement" % f.qualname)
-    for q in (DIO + "nexusreader.NexusReader._parse_tree_statement",):
-        f = index.function(q)
-        ok = any(call_name(c) == "_build_tree_from_newick_tree_string" for c in calls_in(f.node))
-        rep.check(ok, "R13.2", f.qualname, "TREE statement -> shared parser", fn_where(f), "NEXUS TREE statements go through _build_tree_from_newick_tree_string", "NexusReader._parse_tree_statement no longer uses the shared Newick statement parser")
-    yq = index.function(DIO + "nexusyielder.NexusTreeDataYielder._yield_from_trees_block")
-    ok = any(call_name(c) == "_parse_tree_statement" and norm(c.func.value) == "self" for c in calls_in(yq.node))
-    rep.check(ok, "R13.2", yq.qualname, "yielder TREE statement -> NexusReader._parse_tree_statement", fn_where(yq), "the yielder parses TREE statements with the reader's own _parse_tree_statement",
-              "the NEXUS yielder no longer parses TREE statements with NexusReader._parse_tree_statement")
+    with rep.section("R13.2"):
+        builders = []
+        for m in ("newickreader", "newickyielder", "nexusreader", "nexusyielder"):
+            for f in index.functions_in_module(DIO + m):
+                for c in calls_in(f.node, nested=True):
+                    if call_name(c) in ("node_factory", "add_child", "new_child", "insert_child") and isinstance(c.func, ast.Attribute):
+                        builders.append((f, c))
+        rep.floor("R13.2", "node-building calls in the Newick/NEXUS readers", 6, len(builders))
+        for f, c in builders:
+            ok = f.qualname == DIO + "newickreader.NewickReader._parse_tree_node_description"
+            rep.check(ok, "R13.2", f.qualname, "builds nodes: " + norm(c)[:60], fn_where(f, c), "nodes are built from tokens in _parse_tree_node_description only",
+                      "%s builds tree nodes itself (`%s`): a second tree-statement parser, so routes through it can disagree with the others" % (f.qualname, norm(c)[:60]))
+        routes = [
+            (DIO + "newickreader.NewickReader.tree_iter", "self"),
+            (DIO + "newickyielder.NewickTreeDataYielder._yield_items_from_stream", "self.newick_reader"),
+            (DIO + "nexusreader.NexusReader._build_tree_from_newick_tree_string", "self.newick_reader"),
+        ]
+        for q, recv in routes:
+            f = index.function(q)
+            cs = [c for c in calls_in(f.node) if call_name(c) == "_parse_tree_statement"]
+            ok = len(cs) == 1 and norm(cs[0].func.value) == recv
+            rep.check(ok, "R13.2", f.qualname, "delegates to %s._parse_tree_statement" % recv, fn_where(f), "%s parses each tree statement with %s._parse_tree_statement" % (f.name, recv),
+                      "%s no longer parses tree statements with the shared NewickReader._parse_tree_statement" % f.qualname)
+        for q in (DIO + "nexusreader.NexusReader._parse_tree_statement",):
+            f = index.function(q)
+            ok = any(call_name(c) == "_build_tree_from_newick_tree_string" for c in calls_in(f.node))
+            rep.check(ok, "R13.2", f.qualname, "TREE statement -> shared parser", fn_where(f), "NEXUS TREE statements go through _build_tree_from_newick_tree_string", "NexusReader._parse_tree_statement no longer uses the shared Newick statement parser")
+        yq = index.function(DIO + "nexusyielder.NexusTreeDataYielder._yield_from_trees_block")
+        ok = any(call_name(c) == "_parse_tree_statement" and norm(c.func.value) == "self" for c in calls_in(yq.node))
+        rep.check(ok, "R13.2", yq.qualname, "yielder TREE statement -> NexusReader._parse_tree_statement", fn_where(yq), "the yielder parses TREE statements with the reader's own _parse_tree_statement",
+                  "the NEXUS yielder no longer parses TREE statements with NexusReader._parse_tree_statement")
 
     # ---- R13.3
-    pairs = [
-        (DIO + "nexusreader.NexusReader._parse_nexus_stream", DIO + "nexusyielder.NexusTreeDataYielder._yield_items_from_stream",
-         {"CHARACTERS", "DATA", "SETS", "ASSUMPTIONS", "CODONS", "TITLE", "LINK", "CHARSET", "END", "ENDBLOCK"}, set()),
-        (DIO + "nexusreader.NexusReader._parse_trees_block", DIO + "nexusyielder.NexusTreeDataYielder._yield_from_trees_block",
-         set(), {"_new_tree_list"}),
-    ]
-    for rq, yq_, only_reader, ignore_calls in pairs:
-        rf, yf = index.function(rq), index.function(yq_)
-        rm, ym = branch_map(rf.node), branch_map(yf.node)
-        rep.floor("R13.3", "token branches in " + rf.name, 3, len(rm))
-        for lit in sorted(set(rm) | set(ym)):
-            if lit in only_reader and lit not in ym:
-                rep.ob("R13.3", fn_where(rf), "branch %r: reader only (declared difference: the yielder skips non-tree blocks)" % lit, True, nontrivial=False)
-                continue
-            if lit not in rm or lit not in ym:
-                who = "yielder" if lit not in ym else "reader"
-                rep.check(False, "R13.3", (yf if lit not in ym else rf).qualname, "branch %r missing in %s" % (lit, who), fn_where(yf if lit not in ym else rf),
-                          "token branch %r exists in both front ends" % lit,
-                          "the NEXUS %s (%s) has no branch for the token %r that its sibling handles: the one-tree-at-a-time route and the whole-file route treat such documents differently" % (who, (yf if lit not in ym else rf).qualname, lit))
-                continue
-            rc = rm[lit][0] - ignore_calls
-            yc = {{"_yield_from_trees_block": "_parse_trees_block"}.get(x, x) for x in ym[lit][0]} - ignore_calls
-            rep.check(rc == yc, "R13.3", yf.qualname, "branch %r callees differ: reader %s / yielder %s" % (lit, sorted(rc), sorted(yc)), fn_where(yf),
-                      "branch %r calls the same parsers in both front ends: %s" % (lit, sorted(rc)),
-                      "for the token %r the NEXUS reader calls %s but the tree yielder calls %s: the two front ends parse the same block differently" % (lit, sorted(rc), sorted(yc)))
-        rl = [norm(l.test) for l in ast.walk(rf.node) if isinstance(l, ast.While)]
-        yl = [norm(l.test) for l in ast.walk(yf.node) if isinstance(l, ast.While)]
-        common = [t for t in rl if t in yl]
-        missing = [t for t in rl if t not in yl and "SETS" not in t and "END" not in t or (t not in yl and rq.endswith("_parse_trees_block"))]
-        if rq.endswith("_parse_nexus_stream"):
-            missing = [t for t in rl if t not in yl and not ("== 'END'" in t)]
-        rep.check(not missing, "R13.3", yf.qualname, "loop guards differ: %s" % missing, fn_where(yf), "loop guards agree (%d shared)" % len(common),
-                  "loop guard(s) %s of %s have no counterpart in %s: the two front ends stop at different points" % (missing, rf.qualname, yf.qualname))
-        # block-local state: what the two parsers initialise before their token loop, and what they keep on self
-        def pre_loop_inits(f):
-            out = {}
-            for st in f.node.body:
-                if isinstance(st, ast.While):
-                    break
-                if isinstance(st, ast.Assign) and len(st.targets) == 1 and isinstance(st.targets[0], ast.Name):
-                    out[st.targets[0].id] = norm(st.value)
-            return out
-        ri, yi = pre_loop_inits(rf), pre_loop_inits(yf)
-        for v in sorted(set(ri) & set(yi)):
-            rep.check(ri[v] == yi[v], "R13.3", yf.qualname, "block-local `%s` initialised differently: reader %s / yielder %s" % (v, ri[v], yi[v]), fn_where(yf),
-                      "block-local `%s` starts as %s in both front ends" % (v, ri[v]),
-                      "%s starts each block with `%s = %s` where the reader starts with `%s = %s`: state is carried from one block into the next on the one-tree-at-a-time route only (e.g. a taxon symbol mapper built for the previous block's TRANSLATE table), so the two routes resolve the same labels differently" % (yf.qualname, v, yi[v], v, ri[v]))
-        rs = {w.attr for w in writes_in(rf.node) if w.kind in ("store", "augstore") and w.base is not None and norm(w.base) == "self"}
-        ys = {w.attr for w in writes_in(yf.node) if w.kind in ("store", "augstore") and w.base is not None and norm(w.base) == "self"}
-        extra = sorted(ys - rs)
-        rep.check(not extra, "R13.3", yf.qualname, "yielder keeps state on self that the reader does not: %s" % extra, fn_where(yf), "%s stores the same self attributes as %s (%s)" % (yf.name, rf.name, sorted(rs) or "none"),
-                  "%s stores self.%s, which its sibling %s keeps block-local: parser state outlives the block on the one-tree-at-a-time route only" % (yf.qualname, ", self.".join(extra), rf.qualname))
-    # newick reader vs yielder constructions
-    rd = index.function(DIO + "newickreader.NewickReader._read")
-    ti = index.function(DIO + "newickreader.NewickReader.tree_iter")
-    yd = index.function(DIO + "newickyielder.NewickTreeDataYielder._yield_items_from_stream")
+    with rep.section("R13.3"):
+        pairs = [
+            (DIO + "nexusreader.NexusReader._parse_nexus_stream", DIO + "nexusyielder.NexusTreeDataYielder._yield_items_from_stream",
+             {"CHARACTERS", "DATA", "SETS", "ASSUMPTIONS", "CODONS", "TITLE", "LINK", "CHARSET", "END", "ENDBLOCK"}, set()),
+            (DIO + "nexusreader.NexusReader._parse_trees_block", DIO + "nexusyielder.NexusTreeDataYielder._yield_from_trees_block",
+             set(), {"_new_tree_list"}),
+        ]
+        for rq, yq_, only_reader, ignore_calls in pairs:
+            rf, yf = index.function(rq), index.function(yq_)
+            rm, ym = branch_map(rf.node), branch_map(yf.node)
+            rep.floor("R13.3", "token branches in " + rf.name, 3, len(rm))
+            for lit in sorted(set(rm) | set(ym)):
+                if lit in only_reader and lit not in ym:
+                    rep.ob("R13.3", fn_where(rf), "branch %r: reader only (declared difference: the yielder skips non-tree blocks)" % lit, True, nontrivial=False)
+                    continue
+                if lit not in rm or lit not in ym:
+                    who = "yielder" if lit not in ym else "reader"
+                    rep.check(False, "R13.3", (yf if lit not in ym else rf).qualname, "branch %r missing in %s" % (lit, who), fn_where(yf if lit not in ym else rf),
+                              "token branch %r exists in both front ends" % lit,
+                              "the NEXUS %s (%s) has no branch for the token %r that its sibling handles: the one-tree-at-a-time route and the whole-file route treat such documents differently" % (who, (yf if lit not in ym else rf).qualname, lit))
+                    continue
+                rc = rm[lit][0] - ignore_calls
+                yc = {{"_yield_from_trees_block": "_parse_trees_block"}.get(x, x) for x in ym[lit][0]} - ignore_calls
+                rep.check(rc == yc, "R13.3", yf.qualname, "branch %r callees differ: reader %s / yielder %s" % (lit, sorted(rc), sorted(yc)), fn_where(yf),
+                          "branch %r calls the same parsers in both front ends: %s" % (lit, sorted(rc)),
+                          "for the token %r the NEXUS reader calls %s but the tree yielder calls %s: the two front ends parse the same block differently" % (lit, sorted(rc), sorted(yc)))
+            rl = [norm(l.test) for l in ast.walk(rf.node) if isinstance(l, ast.While)]
+            yl = [norm(l.test) for l in ast.walk(yf.node) if isinstance(l, ast.While)]
+            common = [t for t in rl if t in yl]
+            missing = [t for t in rl if t not in yl and "SETS" not in t and "END" not in t or (t not in yl and rq.endswith("_parse_trees_block"))]
+            if rq.endswith("_parse_nexus_stream"):
+                missing = [t for t in rl if t not in yl and not ("== 'END'" in t)]
+            rep.check(not missing, "R13.3", yf.qualname, "loop guards differ: %s" % missing, fn_where(yf), "loop guards agree (%d shared)" % len(common),
+                      "loop guard(s) %s of %s have no counterpart in %s: the two front ends stop at different points" % (missing, rf.qualname, yf.qualname))
+            # block-local state: what the two parsers initialise before their token loop, and what they keep on self
+            def pre_loop_inits(f):
+                out = {}
+                for st in f.node.body:
+                    if isinstance(st, ast.While):
+                        break
+                    if isinstance(st, ast.Assign) and len(st.targets) == 1 and isinstance(st.targets[0], ast.Name):
+                        out[st.targets[0].id] = norm(st.value)
+                return out
+            ri, yi = pre_loop_inits(rf), pre_loop_inits(yf)
+            for v in sorted(set(ri) & set(yi)):
+                rep.check(ri[v] == yi[v], "R13.3", yf.qualname, "block-local `%s` initialised differently: reader %s / yielder %s" % (v, ri[v], yi[v]), fn_where(yf),
+                          "block-local `%s` starts as %s in both front ends" % (v, ri[v]),
+                          "%s starts each block with `%s = %s` where the reader starts with `%s = %s`: state is carried from one block into the next on the one-tree-at-a-time route only (e.g. a taxon symbol mapper built for the previous block's TRANSLATE table), so the two routes resolve the same labels differently" % (yf.qualname, v, yi[v], v, ri[v]))
+            rs = {w.attr for w in writes_in(rf.node) if w.kind in ("store", "augstore") and w.base is not None and norm(w.base) == "self"}
+            ys = {w.attr for w in writes_in(yf.node) if w.kind in ("store", "augstore") and w.base is not None and norm(w.base) == "self"}
+            extra = sorted(ys - rs)
+            rep.check(not extra, "R13.3", yf.qualname, "yielder keeps state on self that the reader does not: %s" % extra, fn_where(yf), "%s stores the same self attributes as %s (%s)" % (yf.name, rf.name, sorted(rs) or "none"),
+                      "%s stores self.%s, which its sibling %s keeps block-local: parser state outlives the block on the one-tree-at-a-time route only" % (yf.qualname, ", self.".join(extra), rf.qualname))
+        # newick reader vs yielder constructions
+        rd = index.function(DIO + "newickreader.NewickReader._read")
+        ti = index.function(DIO + "newickreader.NewickReader.tree_iter")
+        yd = index.function(DIO + "newickyielder.NewickTreeDataYielder._yield_items_from_stream")
 
-    def ctor_kw(fs, name):
-        for f in fs:
-            for c in calls_in(f.node):
-                if call_name(c) == name:
-                    return {k.arg: norm(k.value).replace("self.newick_reader.", "self.") for k in c.keywords if k.arg and k.arg not in ("taxon_namespace",)}
-        return None
-    for name in ("NexusTokenizer", "NexusTaxonSymbolMapper"):
-        a, b = ctor_kw([rd, ti], name), ctor_kw([yd], name)
-        rep.check(a is not None and a == b, "R13.3", yd.qualname, "%s(...) reader %s / yielder %s" % (name, a, b), fn_where(yd), "%s is constructed with the same options on both Newick routes: %s" % (name, a),
-                  "the Newick reader builds %s with %s, the Newick yielder with %s: labels/underscores/taxon lookup behave differently on the two routes" % (name, a, b))
+        def ctor_kw(fs, name):
+            for f in fs:
+                for c in calls_in(f.node):
+                    if call_name(c) == name:
+                        return {k.arg: norm(k.value).replace("self.newick_reader.", "self.") for k in c.keywords if k.arg and k.arg not in ("taxon_namespace",)}
+            return None
+        for name in ("NexusTokenizer", "NexusTaxonSymbolMapper"):
+            a, b = ctor_kw([rd, ti], name), ctor_kw([yd], name)
+            rep.check(a is not None and a == b, "R13.3", yd.qualname, "%s(...) reader %s / yielder %s" % (name, a, b), fn_where(yd), "%s is constructed with the same options on both Newick routes: %s" % (name, a),
+                      "the Newick reader builds %s with %s, the Newick yielder with %s: labels/underscores/taxon lookup behave differently on the two routes" % (name, a, b))
 
     # ---- R13.4
-    tf = index.function(TREE + "._parse_and_create_from_stream")
-    subs = [norm(n) for n in walk_no_nested(tf.node) if isinstance(n, ast.Assign) and isinstance(n.value, ast.Subscript) for n in [n.value]]
-    rd_ = [n for n in walk_no_nested(tf.node) if isinstance(n, ast.Assign) and isinstance(n.value, ast.Call) and call_name(n.value) == "read_tree_lists"]
-    tlsv = norm(rd_[0].targets[0]) if rd_ else "tree_lists"
-    sel1 = [n for n in walk_no_nested(tf.node) if isinstance(n, ast.Assign) and norm(n.value) == tlsv + "[collection_offset]"]
-    tlv = norm(sel1[0].targets[0]) if sel1 else "tree_list"
-    ok = bool(sel1) and (tlv + "[tree_offset]") in subs
-    rep.check(ok, "R13.4", tf.qualname, "selection %s" % subs, fn_where(tf), "Tree.get selects tree_lists[collection_offset][tree_offset] from the full read", "Tree._parse_and_create_from_stream selects with %s" % subs)
-    reads = [c for c in calls_in(tf.node) if call_name(c) == "read_tree_lists"]
-    rep.check(len(reads) == 1, "R13.4", tf.qualname, "single full read", fn_where(tf), "Tree.get performs one full read_tree_lists", "Tree.get no longer performs exactly one full read")
-    # the selected tree is returned as read: stores into it after selection
-    sel = [n for n in walk_no_nested(tf.node) if isinstance(n, ast.Assign) and norm(n.value) == tlv + "[tree_offset]"]
-    if sel:
-        tv = norm(sel[0].targets[0])
-        for n in walk_no_nested(tf.node):
-            if isinstance(n, ast.Assign) and isinstance(n.targets[0], ast.Attribute) and norm(n.targets[0].value) == tv:
-                cfg = cfg_of(tf)
-                nn = stmt_nodes(cfg, n)[0]
-                guarded = cfg.dominated_by(nn, lambda m: m.kind == "test" and norm(n.value) in names_in(m.ast))
-                rep.check(guarded, "R13.4", tf.qualname, "selected tree altered: " + norm_stmt(n), fn_where(tf, n), "the selected tree is handed back as read",
-                          "Tree._parse_and_create_from_stream overwrites `%s` on the selected tree unconditionally (`%s`): the single-tree route delivers a tree whose %s differs from the one the tree-list routes deliver for the same source"
-                          % (norm(n.targets[0]), norm_stmt(n), n.targets[0].attr))
-    lf = index.function(TL + "._parse_and_create_from_stream")
-    loops = [norm(f.iter) for f in walk_no_nested(lf.node) if isinstance(f, ast.For)]
-    rd2 = [n for n in walk_no_nested(lf.node) if isinstance(n, ast.Assign) and isinstance(n.value, ast.Call) and call_name(n.value) == "read_tree_lists"]
-    tls2 = norm(rd2[0].targets[0]) if rd2 else "tree_lists"
-    selc = [n for n in walk_no_nested(lf.node) if isinstance(n, ast.Assign) and norm(n.value) == tls2 + "[collection_offset]"]
-    ttl = norm(selc[0].targets[0]) if selc else "target_tree_list"
-    ok = (ttl + "[tree_offset:]") in loops and ttl in loops
-    rep.check(ok, "R13.4", lf.qualname, "appends %s" % loops, fn_where(lf), "TreeList.get appends target[tree_offset:] (or all of it)", "TreeList._parse_and_create_from_stream iterates %s" % loops)
-    rep.check(len(selc) == 1, "R13.4", lf.qualname, "collection selection", fn_where(lf), "TreeList.get selects tree_lists[collection_offset]", "TreeList.get no longer selects the collection with <read result>[collection_offset]")
+    with rep.section("R13.4"):
+        tf = index.function(TREE + "._parse_and_create_from_stream")
+        subs = [norm(n) for n in walk_no_nested(tf.node) if isinstance(n, ast.Assign) and isinstance(n.value, ast.Subscript) for n in [n.value]]
+        rd_ = [n for n in walk_no_nested(tf.node) if isinstance(n, ast.Assign) and isinstance(n.value, ast.Call) and call_name(n.value) == "read_tree_lists"]
+        tlsv = norm(rd_[0].targets[0]) if rd_ else "tree_lists"
+        sel1 = [n for n in walk_no_nested(tf.node) if isinstance(n, ast.Assign) and norm(n.value) == tlsv + "[collection_offset]"]
+        tlv = norm(sel1[0].targets[0]) if sel1 else "tree_list"
+        ok = bool(sel1) and (tlv + "[tree_offset]") in subs
+        rep.check(ok, "R13.4", tf.qualname, "selection %s" % subs, fn_where(tf), "Tree.get selects tree_lists[collection_offset][tree_offset] from the full read", "Tree._parse_and_create_from_stream selects with %s" % subs)
+        reads = [c for c in calls_in(tf.node) if call_name(c) == "read_tree_lists"]
+        rep.check(len(reads) == 1, "R13.4", tf.qualname, "single full read", fn_where(tf), "Tree.get performs one full read_tree_lists", "Tree.get no longer performs exactly one full read")
+        # the selected tree is returned as read: stores into it after selection
+        sel = [n for n in walk_no_nested(tf.node) if isinstance(n, ast.Assign) and norm(n.value) == tlv + "[tree_offset]"]
+        if sel:
+            tv = norm(sel[0].targets[0])
+            for n in walk_no_nested(tf.node):
+                if isinstance(n, ast.Assign) and isinstance(n.targets[0], ast.Attribute) and norm(n.targets[0].value) == tv:
+                    cfg = cfg_of(tf)
+                    nn = stmt_nodes(cfg, n)[0]
+                    guarded = cfg.dominated_by(nn, lambda m: m.kind == "test" and norm(n.value) in names_in(m.ast))
+                    rep.check(guarded, "R13.4", tf.qualname, "selected tree altered: " + norm_stmt(n), fn_where(tf, n), "the selected tree is handed back as read",
+                              "Tree._parse_and_create_from_stream overwrites `%s` on the selected tree unconditionally (`%s`): the single-tree route delivers a tree whose %s differs from the one the tree-list routes deliver for the same source"
+                              % (norm(n.targets[0]), norm_stmt(n), n.targets[0].attr))
+        lf = index.function(TL + "._parse_and_create_from_stream")
+        loops = [norm(f.iter) for f in walk_no_nested(lf.node) if isinstance(f, ast.For)]
+        rd2 = [n for n in walk_no_nested(lf.node) if isinstance(n, ast.Assign) and isinstance(n.value, ast.Call) and call_name(n.value) == "read_tree_lists"]
+        tls2 = norm(rd2[0].targets[0]) if rd2 else "tree_lists"
+        selc = [n for n in walk_no_nested(lf.node) if isinstance(n, ast.Assign) and norm(n.value) == tls2 + "[collection_offset]"]
+        ttl = norm(selc[0].targets[0]) if selc else "target_tree_list"
+        ok = (ttl + "[tree_offset:]") in loops and ttl in loops
+        rep.check(ok, "R13.4", lf.qualname, "appends %s" % loops, fn_where(lf), "TreeList.get appends target[tree_offset:] (or all of it)", "TreeList._parse_and_create_from_stream iterates %s" % loops)
+        rep.check(len(selc) == 1, "R13.4", lf.qualname, "collection selection", fn_where(lf), "TreeList.get selects tree_lists[collection_offset]", "TreeList.get no longer selects the collection with <read result>[collection_offset]")
 
     # ---- R13.5
-    for name in ("read_dataset", "read_tree_lists", "read_char_matrices"):
-        f = index.function(DIO + "ioservice.DataReader." + name)
-        cs = [c for c in calls_in(f.node) if call_name(c) == "_read" and norm(c.func.value) == "self"]
-        ok = len(cs) == 1 and norm(get_kwarg(cs[0], "stream")) == "stream" if cs and get_kwarg(cs[0], "stream") is not None else False
-        rep.check(ok, "R13.5", f.qualname, "delegates to self._read(stream=stream)", fn_where(f), "%s delegates to the one _read with the stream unchanged" % name, "%s does not delegate to self._read(stream=stream, ...)" % f.qualname)
-    mod = index.module("dendropy.dataio")
-    rows = 0
-    for n in ast.walk(mod.tree):
-        if isinstance(n, ast.Assign) and isinstance(n.targets[0], ast.Subscript) and norm(n.targets[0].value) == "_IO_SERVICE_REGISTRY" and isinstance(n.value, ast.Call):
-            args = n.value.args
-            if len(args) == 3 and not is_none(args[0]) and not is_none(args[2]) and isinstance(n.targets[0].slice, ast.Constant):
-                rows += 1
-                r, y = norm(args[0]), norm(args[2])
-                fam = lambda s_: s_.split(".")[0].replace("reader", "").replace("yielder", "")
-                rep.check(fam(r) == fam(y), "R13.5", "dendropy.dataio", "registry row %s: %s / %s" % (norm(n.targets[0].slice), r, y), "src/dendropy/dataio/__init__.py:%d" % n.lineno,
-                          "schema %s pairs reader %s with yielder %s" % (norm(n.targets[0].slice), r, y),
-                          "the I/O registry pairs the reader %s with the tree yielder %s for schema %s: the iterator route parses with a different family of parser" % (r, y, norm(n.targets[0].slice)))
-    rep.floor("R13.5", "registry rows with both reader and tree yielder", 3, rows)
+    with rep.section("R13.5"):
+        for name in ("read_dataset", "read_tree_lists", "read_char_matrices"):
+            f = index.function(DIO + "ioservice.DataReader." + name)
+            cs = [c for c in calls_in(f.node) if call_name(c) == "_read" and norm(c.func.value) == "self"]
+            ok = len(cs) == 1 and norm(get_kwarg(cs[0], "stream")) == "stream" if cs and get_kwarg(cs[0], "stream") is not None else False
+            rep.check(ok, "R13.5", f.qualname, "delegates to self._read(stream=stream)", fn_where(f), "%s delegates to the one _read with the stream unchanged" % name, "%s does not delegate to self._read(stream=stream, ...)" % f.qualname)
+        mod = index.module("dendropy.dataio")
+        rows = 0
+        for n in ast.walk(mod.tree):
+            if isinstance(n, ast.Assign) and isinstance(n.targets[0], ast.Subscript) and norm(n.targets[0].value) == "_IO_SERVICE_REGISTRY" and isinstance(n.value, ast.Call):
+                args = n.value.args
+                if len(args) == 3 and not is_none(args[0]) and not is_none(args[2]) and isinstance(n.targets[0].slice, ast.Constant):
+                    rows += 1
+                    r, y = norm(args[0]), norm(args[2])
+                    fam = lambda s_: s_.split(".")[0].replace("reader", "").replace("yielder", "")
+                    rep.check(fam(r) == fam(y), "R13.5", "dendropy.dataio", "registry row %s: %s / %s" % (norm(n.targets[0].slice), r, y), "src/dendropy/dataio/__init__.py:%d" % n.lineno,
+                              "schema %s pairs reader %s with yielder %s" % (norm(n.targets[0].slice), r, y),
+                              "the I/O registry pairs the reader %s with the tree yielder %s for schema %s: the iterator route parses with a different family of parser" % (r, y, norm(n.targets[0].slice)))
+        rep.floor("R13.5", "registry rows with both reader and tree yielder", 3, rows)
